@@ -12,6 +12,8 @@ META = {
 }
 
 THEOREMS = [
+    "Qentem.Props.JsonTables.notation_tables",
+    "Qentem.Props.JsonTables.replacement_matches_escapeJson",
     "Qentem.Props.C07.parse_all_or_nothing",
     "Qentem.Props.C07.failure_forces_end_of_input",
     "Qentem.Props.C07.accepted_is_complete",
@@ -21,7 +23,7 @@ WITNESSES = ['[{"a":1,}]', '[{]]', '{"a":{"b":1,}}', '[{"a":1]]', '[[1}]', '[1,,
 
 
 def run(ctx):
-    drv, h = _json.setup(ctx, ["Qentem.Props.C07"], THEOREMS)
+    drv, h = _json.setup(ctx, ["Qentem.Props.C07", "Qentem.Props.JsonTables"], THEOREMS)
     if not h:
         return
     rng = ctx.rng
